@@ -210,18 +210,17 @@ open VL.StvFile
 
 def svalJson (v : SVal) : Json :=
   Json.mkObj [("text", Json.str v.text), ("digits", match v.digits with | some n => Json.str (toString n) | none => Json.null),
-    ("udigit", Json.bool v.udigit), ("int", match v.intv with | some z => Json.str (toString z) | none => Json.null)]
+    ("int", match v.intv with | some z => Json.str (toString z) | none => Json.null)]
 
 def svalOfJson (j : Json) : Except String SVal := do
   let t ← j.getObjValAs? String "text"
   let d ← (match j.getObjVal? "digits" with
     | .ok (.str s) => (match s.toNat? with | some n => pure (some n) | none => throw "bad digits")
     | _ => pure none)
-  let u := (j.getObjValAs? Bool "udigit").toOption.getD false
   let i ← (match j.getObjVal? "int" with
     | .ok (.str s) => (match s.toInt? with | some z => pure (some z) | none => throw "bad int")
     | _ => pure none)
-  pure { text := t, digits := d, udigit := u, intv := i }
+  pure { text := t, digits := d, intv := i }
 
 partial def tbOfJson (j : Json) : Except String Tb := do
   match j with
@@ -241,7 +240,10 @@ partial def sysOfJson (j : Json) : Except String Sys := do
   | .str "other" => pure .other
   | _ =>
     match j.getObjVal? "voting" with
-    | .ok v => do pure (.voting (← svalOfJson v) (← sysOfJson (← j.getObjVal? "e")))
+    | .ok .null => do pure (.voting none (← sysOfJson (← j.getObjVal? "e")))
+    | .ok v => do
+        let ok := (j.getObjValAs? Bool "title_ok").toOption.getD true
+        pure (.voting (some ((← svalOfJson v), ok)) (← sysOfJson (← j.getObjVal? "e")))
     | .error _ =>
       match j.getObjVal? "fixed" with
       | .ok v => do pure (.fixed (← fromJson? (α := Nat) v) (← sysOfJson (← j.getObjVal? "e")))
@@ -303,13 +305,11 @@ def hlineOfJson (j : Json) : Except String HLine := do
 def firstJson : First → Json
   | .mult r => Json.mkObj [("mult", ratJson r)]
   | .multBad => "multBad"
-  | .multZero => "multZero"
   | .word s => Json.mkObj [("word", Json.str s)]
 
 def firstOfJson (j : Json) : Except String First := do
   match j with
   | .str "multBad" => pure .multBad
-  | .str "multZero" => pure .multZero
   | _ =>
     match j.getObjVal? "mult" with
     | .ok v => do let s ← v.getStr?; pure (.mult (← ratOfStr s))
@@ -359,7 +359,8 @@ def handleStv (op : String) (j : Json) : Option (Except String Json) :=
     let d ← docOfJson (← j.getObjVal? "doc")
     let sys ← sysOfJson (← j.getObjVal? "sys")
     let arg := (j.getObjValAs? Nat "seats_arg").toOption
-    match dumpStv sys arg d with
+    let namesOK := (j.getObjValAs? Bool "names_ok").toOption.getD true
+    match dumpStv sys arg namesOK d with
     | .error e => pure (Json.mkObj [("dump", errJson e)])
     | .ok (h, v) =>
       pure (Json.mkObj [("hdr", Json.arr (h.map hlineJson).toArray), ("votes", Json.arr (v.map vlineJson).toArray),
